@@ -45,6 +45,13 @@ var (
 	raceFoldO2 = gotype.Folders(func(v *raceB, vis structform.ExtVisitor) error { return vis.OnString("G:" + v.S) })
 )
 
+var raceSharedInner = []interface{}{1, "two", []interface{}{3.5, nil}}
+var raceSharedList = []interface{}{raceSharedInner, map[string]interface{}{"k": raceSharedInner}, raceSharedInner, []int{1, 2}}
+var raceSharedMap = map[string]map[string]interface{}{
+	"a": {"h": raceA{"x"}},
+	"b": {"s": raceOptTarget{C: "y"}},
+}
+
 // raceOptions: instances configured through options and setters, on the goroutine's own instances
 func raceOptions(w int) []string {
 	var out []string
@@ -148,6 +155,44 @@ func raceOptions(w int) []string {
 			}
 		}()
 		out = append(out, "userproc:"+res)
+	}
+	// every goroutine folds the SAME read-only generic values (a []interface{} that contains
+	// slices and maps, a map holding structs of two types) with its own iterator and encoder
+	{
+		var res string
+		func() {
+			defer func() {
+				if r := recover(); r != nil {
+					res = fmt.Sprint("PANIC ", r)
+				}
+			}()
+			var buf bytes.Buffer
+			it, err := gotype.NewIterator(json.NewVisitor(&buf))
+			if err != nil {
+				res = "SETUPERR"
+				return
+			}
+			for i := 0; i < 20; i++ {
+				if err := it.Fold(raceSharedList); err != nil {
+					res = "ERR " + err.Error()
+					return
+				}
+				buf.WriteString("|")
+				if err := it.Fold(raceSharedMap["a"]); err != nil {
+					res = "ERR " + err.Error()
+					return
+				}
+				if err := it.Fold(raceSharedMap["b"]); err != nil {
+					res = "ERR " + err.Error()
+					return
+				}
+				if i == 0 {
+					res = buf.String()
+				}
+				buf.Reset()
+			}
+		}()
+		out = append(out, "shared:"+res)
 	}
 	// recycled Unfolders (Reset, then SetTarget) building containers nested in interface{} positions
 	{
